@@ -276,9 +276,18 @@ fn s_try_from_str(t: &str) -> Out {
 /// hand-built candid message: DIDL, empty type table, one argument of type principal,
 /// value = 01 <leb len> <bytes>
 fn wire(b: &[u8]) -> Vec<u8> {
-    assert!(b.len() < 128);
     let mut m = b"DIDL\x00\x01\x68\x01".to_vec();
-    m.push(b.len() as u8);
+    // LEB128 length
+    let mut n = b.len();
+    loop {
+        let byte = (n & 0x7f) as u8;
+        n >>= 7;
+        if n == 0 {
+            m.push(byte);
+            break;
+        }
+        m.push(byte | 0x80);
+    }
     m.extend_from_slice(b);
     m
 }
@@ -521,15 +530,26 @@ fn check_bytes(b: &[u8], fam: &str, rep: &mut Report) {
 // byte strings of length 30..=40: every constructor rejects
 // ---------------------------------------------------------------------------------------
 fn check_long(b: &[u8], rep: &mut Report) {
-    assert!(b.len() > 29 && b.len() < 128);
+    assert!(b.len() > 29);
     rep.evaluations += 1;
     rep.states += 1;
     let text = principal_text(b); // R7 printer has no length limit: correct CRC, correct grouping
     let (m, cl) = oracle(&text);
     assert!(m.is_none() && cl == Class::TooLong);
     let upper = text.to_ascii_uppercase();
-    let case = json!({"kind": "long", "hex": hx(b), "text_with_correct_crc": text});
-    let mut c = Cmp { rep, id: format!("long={}", hx(b)), case };
+    // (very long strings are identified by length and leading bytes)
+    let (short_hex, short_text) = if b.len() > 64 { (format!("len{}:{}..", b.len(), hx(&b[..8])), format!("{}..", &text[..40])) } else { (hx(b), text.clone()) };
+    let pattern = if b.iter().all(|x| *x == 0) {
+        "all-00"
+    } else if b.iter().all(|x| *x == 0xff) {
+        "all-ff"
+    } else if b.iter().enumerate().all(|(k, x)| *x == (k + 1) as u8) {
+        "ascending"
+    } else {
+        "other"
+    };
+    let case = json!({"kind": "long", "hex": short_hex, "length": b.len(), "pattern": pattern, "text_with_correct_crc": short_text});
+    let mut c = Cmp { rep, id: format!("long={short_hex}"), case };
     let mut classes: Vec<(String, String)> = vec![];
     let mut go = |c: &mut Cmp, op: &str, o: Out, panic_ok: bool| {
         classes.push((op.to_string(), o.class()));
@@ -914,7 +934,16 @@ fn replay(path: &str) -> i32 {
     let mut rep = Report::new();
     match case["kind"].as_str() {
         Some("bytes") => check_bytes(&unhex("hex"), "replay", &mut rep),
-        Some("long") => check_long(&unhex("hex"), &mut rep),
+        Some("long") => {
+            let n = case["length"].as_u64().unwrap_or(0) as usize;
+            let b: Vec<u8> = match case["pattern"].as_str() {
+                Some("all-00") => vec![0; n],
+                Some("all-ff") => vec![0xff; n],
+                Some("ascending") => (1..=n).map(|x| x as u8).collect(),
+                _ => unhex("hex"),
+            };
+            check_long(&b, &mut rep)
+        }
         Some("owned") => check_owned(&unhex("hex"), &mut rep),
         Some("text") => {
             let t = case["text"].as_str().unwrap_or("");
@@ -970,7 +999,13 @@ fn main() {
     for len in 30..=40 {
         long.extend(structured(len));
     }
-    notes.push(format!("over-long family: {} byte strings over lengths 30..=40, each also as a correctly checksummed and grouped text", long.len()));
+    // lengths where a narrower length type wraps (8 and 16 bit): 2^k - 1 ..= 2^k + 30, and around 127/128
+    for len in (126..=130usize).chain(255..=286).chain(511..=542).chain(65535..=65566) {
+        long.push(vec![0; len]);
+        long.push(vec![0xff; len]);
+        long.push((1..=len).map(|x| x as u8).collect());
+    }
+    notes.push(format!("over-long family: {} byte strings over lengths 30..=40 (structured family) and 126..=130, 255..=286, 511..=542, 65535..=65566 (all-00, all-ff, ascending), each also as a correctly checksummed and grouped text", long.len()));
     let r = ctx.par_range("E1c: lengths 30..=40, every constructor", long.len() as u64, 64, || (), |_, i, rep| {
         check_long(&long[i as usize], rep);
     });
@@ -1065,7 +1100,7 @@ fn main() {
     let code = finish(
         &ctx,
         rep,
-        "E1: every byte string of length <= 2 and a structured family (all-00, all-ff, 1,2,3.., one position in {00,01,7f,80,fe,ff} over all-00 / all-55) for each length 0..=29 through all constructors, printers, parsers, serde JSON, a minimal non-human-readable serde format, candid Encode!/Decode!/IDLArgs; the same family for lengths 30..=40 must be rejected by every constructor (from_slice: documented panic), by the wire parser and as correctly checksummed text. E3: for every canonical text of the reduced set all single replacements / insertions over 67 characters, deletions, dash moves, regroupings, truncations (prefixes and suffixes), first-group case masks, all-upper-case (thorough: pairs of replacements for length <= 1, single deviations for all length-2 principals): accepted iff the R7 parser accepts, with the same principal. states = distinct principals + distinct texts per origin; transitions = subject calls; non-trivial = cases the oracle accepts (principal or text).",
+        "E1: every byte string of length <= 2 and a structured family (all-00, all-ff, 1,2,3.., one position in {00,01,7f,80,fe,ff} over all-00 / all-55) for each length 0..=29 through all constructors, printers, parsers, serde JSON, a minimal non-human-readable serde format, candid Encode!/Decode!/IDLArgs; the same family for lengths 30..=40, and all-00 / all-ff / ascending strings of the lengths where an 8- or 16-bit length wraps (126..=130, 255..=286, 511..=542, 65535..=65566), must be rejected by every constructor (from_slice: documented panic), by the wire parser and as correctly checksummed text. E3: for every canonical text of the reduced set all single replacements / insertions over 67 characters, deletions, dash moves, regroupings, truncations (prefixes and suffixes), first-group case masks, all-upper-case (thorough: pairs of replacements for length <= 1, single deviations for all length-2 principals): accepted iff the R7 parser accepts, with the same principal. states = distinct principals + distinct texts per origin; transitions = subject calls; non-trivial = cases the oracle accepts (principal or text).",
         &[
             "R7 (refmodel::hash: CRC32 IEEE, RFC 4648 base32 lower-case without padding, groups of five) is a correct reading of the IC interface specification's textual representation of principals; a second local classifier agrees with it on every text examined",
             "'equal up to ASCII case' means: the text is ASCII and its ASCII-lower-case form is byte-identical to the canonical text",
